@@ -1097,7 +1097,51 @@ fn run_bind(rep: &mut Report, c: &BindCase) -> Option<(String, String)> {
     if !ok {
         return Some((format!("C18.idle-timeout:{class}"), format!("local {} ms, peer {} ms, negotiated_max_idle_timeout() = {:?}", c.local_idle, remote_idle, got)));
     }
+    // the value the connection really uses: qbase::time::ArcIdleConfig, created with the local value and fed the
+    // peer's value by qconnection's builder.  It has no accessor; its Debug form is read, and a form that cannot
+    // be read is counted and skipped, never judged.
+    let cfg = qbase::time::ArcIdleConfig::new(Duration::from_millis(c.local_idle), Duration::from_secs(3600));
+    cfg.negotiate_max_idle_timeout(Duration::from_millis(remote_idle));
+    match debug_duration_field(&format!("{cfg:?}"), "max_idle_timeout") {
+        Some(eff) => {
+            rep.count("idle_config_effective_checks");
+            let want = expect.map(Duration::from_millis).unwrap_or(Duration::ZERO);
+            if eff != want {
+                return Some((
+                    format!("C18.idle-timeout.effective:{class}"),
+                    format!("local {} ms, peer {} ms: the idle configuration in force uses {:?}, the smaller non-zero value is {:?} (zero = none)", c.local_idle, remote_idle, eff, want),
+                ));
+            }
+        }
+        None => rep.count("idle_config_debug_form_unreadable"),
+    }
     None
+}
+
+/// `field: <Duration as Debug>` inside a Debug rendering (e.g. `max_idle_timeout: 1.5s`)
+fn debug_duration_field(dbg: &str, field: &str) -> Option<Duration> {
+    let i = dbg.find(&format!("{field}: "))? + field.len() + 2;
+    let rest = &dbg[i..];
+    let end = rest.find([',', ' ', '}', ')']).unwrap_or(rest.len());
+    let tok = &rest[..end];
+    let split = tok.find(|c: char| !(c.is_ascii_digit() || c == '.'))?;
+    // exact decimal arithmetic (the values go up to 2^62 ms)
+    let digits: u32 = match &tok[split..] {
+        "ns" => 0,
+        "µs" | "us" => 3,
+        "ms" => 6,
+        "s" => 9,
+        _ => return None,
+    };
+    let (int, frac) = tok[..split].split_once('.').unwrap_or((&tok[..split], ""));
+    let int: u128 = int.parse().ok()?;
+    let mut frac: String = frac.chars().take(digits as usize).collect();
+    while (frac.len() as u32) < digits {
+        frac.push('0');
+    }
+    let frac: u128 = if frac.is_empty() { 0 } else { frac.parse().ok()? };
+    let nanos = int.checked_mul(10u128.pow(digits))?.checked_add(frac)?;
+    Some(Duration::new(u64::try_from(nanos / 1_000_000_000).ok()?, (nanos % 1_000_000_000) as u32))
 }
 
 fn eval_bind(rep: &mut Report, c: &BindCase) {
